@@ -90,6 +90,7 @@ def LegalNoHeadroom (cfg : Cfg) (s : St) : Op → Prop
   | .recv _ parse => ParserOk parse
   | .timer k => timerFlag s k = true
   | .restorePackets ps => RestoreOk { cfg := cfg, s := s } ps
+  | .release id => storeHas id s.store = false
   | _ => True
 
 def LegalSeqNoHeadroom (cfg : Cfg) : St → List Op → Prop
@@ -131,9 +132,10 @@ theorem C05_store_kinds (s : St) (hi : Inv s) : ∀ x ∈ s.store, x.2.kind = .p
 
 Stated here because it lives on the invariant of this file (the lemma chains of `Props/C06.lean`
 and of this file cannot be imported together).  The contract `Legal` of `C05_no_panic` does NOT
-suffice: it leaves `release id` unrestricted, and an application that releases the identifier of a
-stored packet makes the statement false (`C06_stored_id_held_needs_ownership`).  With the ownership
-rule `Hd.LegalIds` it holds in every reachable state. -/
+suffice: it restricts `release id` (since fix ba1a812: only identifiers no stored packet carries) but
+not the identifier of a SUBSCRIBE / UNSUBSCRIBE, and an application that reuses the identifier of a
+stored packet for a SUBSCRIBE makes the statement false (`C06_stored_id_held_needs_ownership`).
+With the ownership rule `Hd.LegalIds` it holds in every reachable state. -/
 
 /-- a sequence of calls each of which respects `Legal` and the ownership rule `Hd.LegalIds` -/
 def LegalSeqIds (cfg : Cfg) : St → List Op → Prop
@@ -174,8 +176,11 @@ theorem C05_idcalls_total (cfg : Cfg) (s : St) (hp : PidWf s.pidMan) (hn : s.pan
     (step cfg s (.release id)).s.panic = none ∧ (step cfg s (.erase id)).s.panic = none := by
   refine ⟨hn, hn, ?_, ?_⟩
   · obtain ⟨a, _, e⟩ := releaseIfUsed_s (c := { cfg := cfg, s := s }) hp id
-    show (releaseIfUsed _ id).s.panic = none
-    rw [e]; exact hn
+    show (releasePacketId { cfg := cfg, s := s } id).s.panic = none
+    refine releasePacketId_ind (Q := fun c' => c'.s.panic = none) _ id (by rw [e]; exact hn)
+      (fun h => h) (fun h => ?_)
+    rcases decSendCount_s_cases (dropWaits (releaseIfUsed { cfg := cfg, s := s } id) id) with e' | e' <;>
+      rw [e'] <;> exact h
   · show (eraseStoredPublish { cfg := cfg, s := s } id).s.panic = none
     unfold eraseStoredPublish
     dsimp only
@@ -358,21 +363,61 @@ example : Framing.feed Framing.PB.reset [0x10, 10, 0, 4, 77, 81, 84, 84, 4, 2, 0
     totalSize [0, 4, 77, 81, 84, 84, 4, 2, 0, 0].length ≤ noLimit := by
   decide
 
-/-! ### `Legal` alone does not keep stored identifiers in use -/
+/-! ### `Legal` alone does not keep stored identifiers in use
 
-/-- the walk of `nvOps` up to the stored QoS 2 PUBLISH (id 1), then `release 1`: every call is
+Until fix ba1a812 the witness was `release 1` of the stored PUBLISH's identifier (then unrestricted
+by `Legal`).  Since the fix that call is outside `Legal` itself (see
+`C05_release_stored_then_reuse_panics` below); the phenomenon remains for `send`, whose identifier
+ownership `Legal` does not restrict for SUBSCRIBE / UNSUBSCRIBE. -/
+
+def nvSub : Pkt := { ver := 5, kind := .subscribe, pid := some 1, size := 10 }
+
+/-- the walk of `nvOps` up to the stored QoS 2 PUBLISH (id 1), then a SUBSCRIBE that takes the same
+    identifier and `notify_closed` (which releases the identifiers awaited by SUBACK): every call is
     `Legal`, the invariant holds, nothing panics — and the stored packet's identifier is free.
-    (`release` of an identifier that a stored packet carries violates `Hd.LegalIds`.) -/
+    (`send` of a SUBSCRIBE with an identifier that a stored packet carries violates `Hd.LegalIds`.) -/
 theorem C06_stored_id_held_needs_ownership :
-    LegalSeq nvCfg (St.init nvCfg 5) (nvOps.take 4 ++ [.release 1]) ∧
+    LegalSeq nvCfg (St.init nvCfg 5) (nvOps.take 4 ++ [.send nvSub, .closed]) ∧
+    (run nvCfg (St.init nvCfg 5) (nvOps.take 4 ++ [.send nvSub, .closed])).store.map (·.1) = [1] ∧
+    isUsed (run nvCfg (St.init nvCfg 5) (nvOps.take 4 ++ [.send nvSub, .closed])) 1 = false ∧
+    ¬ Hd.LegalIds (run nvCfg (St.init nvCfg 5) (nvOps.take 4)) (.send nvSub) := by
+  refine ⟨⟨nvOps_legal.1, nvOps_legal.2.1, trivial, nvOps_legal.2.2.2.1, ?_, trivial, trivial⟩, by decide, by decide, ?_⟩
+  · exact ⟨⟨Or.inr rfl, fun hk => absurd hk (by decide)⟩, fun hk => absurd hk (by decide),
+      fun hk => absurd hk (by decide)⟩
+  · intro h
+    have := h.2.2 (.inl rfl)
+    revert this
+    unfold Hd.Unowned
+    decide
+
+/-- **`release` of a stored packet's identifier is outside the contract since fix ba1a812 — and has
+    to be**: the walk of `nvOps` up to the stored QoS 2 PUBLISH (id 1, awaited by PUBREC), then
+    `release 1`.  The release violates only the clause `storeHas id store = false` of `Legal`.  It
+    frees the identifier and (new with the fix) removes it from `pubrec` and gives the credit back,
+    but the packet stays stored: the stored packet has a free identifier in no wait set.  `acquire`
+    then hands out 1 again, the same PUBLISH is `Legal` to send (`IdFresh`: no wait set holds 1) and
+    panics at `store.add().unwrap()`.  (Before the fix the stale `pubrec` entry made that second
+    send illegal; the implementation panics on this call sequence before and after the fix.) -/
+theorem C05_release_stored_then_reuse_panics :
+    LegalSeq nvCfg (St.init nvCfg 5) (nvOps.take 4) ∧
+    ¬ Legal nvCfg (run nvCfg (St.init nvCfg 5) (nvOps.take 4)) (.release 1) ∧
     (run nvCfg (St.init nvCfg 5) (nvOps.take 4 ++ [.release 1])).store.map (·.1) = [1] ∧
     isUsed (run nvCfg (St.init nvCfg 5) (nvOps.take 4 ++ [.release 1])) 1 = false ∧
-    ¬ Hd.LegalIds (run nvCfg (St.init nvCfg 5) (nvOps.take 4)) (.release 1) := by
-  refine ⟨⟨nvOps_legal.1, nvOps_legal.2.1, trivial, nvOps_legal.2.2.2.1, trivial, trivial⟩, by decide, by decide, ?_⟩
-  show ¬ (storeHas 1 _ = false)
-  decide
+    (run nvCfg (St.init nvCfg 5) (nvOps.take 4)).pubrec = [1] ∧
+    (run nvCfg (St.init nvCfg 5) (nvOps.take 4 ++ [.release 1])).pubrec = [] ∧
+    (run nvCfg (St.init nvCfg 5) (nvOps.take 4 ++ [.release 1])).panic = none ∧
+    Legal nvCfg (run nvCfg (St.init nvCfg 5) (nvOps.take 4 ++ [.release 1])) .acquire ∧
+    Legal nvCfg (run nvCfg (St.init nvCfg 5) (nvOps.take 4 ++ [.release 1, .acquire])) (.send nvPub) ∧
+    (run nvCfg (St.init nvCfg 5) (nvOps.take 4 ++ [.release 1, .acquire, .send nvPub])).panic =
+      some "core.rs:process_send_v5_0_publish:store.add().unwrap()" := by
+  refine ⟨⟨nvOps_legal.1, nvOps_legal.2.1, trivial, nvOps_legal.2.2.2.1, trivial⟩, ?_, by decide, by decide,
+    by decide, by decide, by decide, trivial, ?_, by decide⟩
+  · show ¬ (storeHas 1 _ = false)
+    decide
+  · refine ⟨⟨Or.inr rfl, fun _ => by decide⟩, fun _ _ => ⟨1, rfl, ?_⟩, fun hk => absurd hk (by decide)⟩
+    unfold IdFresh; decide
 
-/-- the hypotheses of `C06_stored_id_held_run` are satisfiable by the same walk without the release:
+/-- the hypotheses of `C06_stored_id_held_run` are satisfiable by the same walk without the reuse of the identifier:
     the PUBLISH id 1 was acquired for it and is owned by nothing when it is sent -/
 theorem nvOps_legalIds : LegalSeqIds nvCfg (St.init nvCfg 5) (nvOps.take 5) := by
   have h := nvOps_legal
@@ -531,7 +576,7 @@ theorem C05_disc_clean_step (cfg : Cfg) (s : St) (op : Op) (h : DiscClean s)
   | setRespTimeout ms => exact g
   | acquire => exact g
   | register id => exact g
-  | release id => exact DC.good_congr (DC.K_releaseIfUsed _ id) g
+  | release id => exact DC.good_congr (DC.K_releasePacketId _ id) g
   | erase id => exact DC.good_congr (DC.K_eraseStoredPublish _ id) g
   | restoreHandled ids => exact g
   | restorePackets ps => exact DC.good_congr (DC.K_restorePackets ps _) g
